@@ -5,6 +5,7 @@ import Selene.Std.Prog
 import Selene.Scope.RefAt
 import Selene.Scope.Coherent
 import Selene.Scope.Spec
+import Selene.Lints.Roblox
 namespace Driver.StdProg
 open Selene Selene.Lua Selene.Std Selene.Std.Prog Selene.Scope
 
@@ -110,5 +111,26 @@ def handleProg : Handler := fun input impl =>
     | _, _, _ => .malformed "stdprog lib / allow / chunk"
   | _ => .malformed "stdprog"
 
-def handlers : List (String × Handler) := [("STD.prog", handleProg)]
+/-- request `(chunk src)`, implementation `((code (first last) message)…)` of the three Roblox constructor lints -/
+def handleRoblox : Handler := fun input impl =>
+  match input with
+  | .list [schunk, _src] =>
+    match readChunk schunk with
+    | some chunk =>
+      let mdiags := Selene.Lints.Roblox.lint chunk.block
+      match impl with
+      | .atom "panic" => { agree := false, spec := some "[C11] a Roblox lint panicked", model := "" }
+      | .list idiags =>
+        let md := sortStrs (mdiags.map fun g => s!"({g.code.quote} ({g.primary.first} {g.primary.last}) {g.msg.quote})")
+        let id := sortStrs (idiags.filterMap fun d => match d with
+          | .list [c, p, m] => some s!"({(c.asString?.getD "").quote} {toString p} {(m.asString?.getD "").quote})"
+          | _ => none)
+        { agree := md == id,
+          model := if md == id then "" else s!"model {md.filter fun x => !id.contains x} impl {id.filter fun x => !md.contains x}",
+          tags := (mdiags.map (·.code)).eraseDups ++ (if mdiags.isEmpty then ["silent"] else []) }
+      | _ => .malformed "roblox impl"
+    | none => .malformed "roblox chunk"
+  | _ => .malformed "roblox"
+
+def handlers : List (String × Handler) := [("STD.prog", handleProg), ("ROBLOX.prog", handleRoblox)]
 end Driver.StdProg
